@@ -848,14 +848,11 @@ def search(ctx, broken, corr_failures):
 
 
 def explains(broken_item, found):
-    b = broken_item.lower()
-    keys = " ".join(v.key for v in found).lower()
-    if "correspondence" in b:
-        return bool(found)
-    for word in ("split", "cat", "getitem", "flip", "roll", "narrow", "clone", "grid_sample", "copy", "from_images", "append", "axes"):
-        if word in b:
-            return word in keys
-    return False
+    """a broken obligation is explained only by a concrete failure that is NOT an already recorded finding
+    (the recorded defects of the unchanged tree are always found and must not mask a new break)"""
+    known, _ = vlib.load_findings()
+    fresh = [v for v in found if v.key not in known]
+    return bool(fresh)
 
 
 def replay(ctx, data):
@@ -870,6 +867,22 @@ def replay(ctx, data):
 
 
 MANIFEST_ENTRY = {
-    "text": "",
-    "note": "",
+    "text": "Coq theorems (closed under the global context) about a provenance semantics of the torch operation family and a "
+            "transcription of the grid bookkeeping of data/image.py, data/flow.py, data/tensor.py, data/collate.py, for EVERY batch "
+            "size, grid assignment, shape and argument: (1) every single-operand operation reaching the generic branch of "
+            "ImageBatch.__torch_function__ that does not reorder/mix the batch dimension yields either a plain tensor or a batch with "
+            "exactly one grid per entry, of the data's spatial shape, entry i carrying the grid of the operand entry whose data it "
+            "holds, and never raises where the plain operation succeeds; a result whose batch size / ndim / spatial shape no longer "
+            "matches is a plain tensor; (2) torch.cat along the batch dimension of any number of batches; (3) __getitem__ for every "
+            "int / slice / index-list form incl. tuples with ellipses (ImageBatch and FlowFields), __iter__, deepcopy / pickle / copy; "
+            "(4) closure under programs of any length by induction over the operation list (ghost item provenance); (5) _refuted "
+            "witnesses for 16 defective forms (batch reordering / mixing, split sizes, tensor_split sections, split along other dims, "
+            "batch[...], masks, narrow method, FlowFields batch size / split / copy / from_images axes). Tie: translator unit BatchTables "
+            "(Python-ast extraction of the dispatcher's function tables, typing conditions and fingerprints of all transcribed methods, "
+            "proved equal to the pinned ones) + correspondence on adaptively generated programs of 1-3 operations (type, grid ids, axes, "
+            "shape and measured per-entry provenance compared exactly inside Coq).",
+    "note": "Partial: binary operations with a second tensor, cat along other dims, stack, split(int)/tensor_split(indices) along the batch "
+            "dim, from_images/append/collate, the FlowFields and single Image/FlowField dispatchers and ImageBatch.sample are modelled and "
+            "tied by the correspondence and evaluated on the implementation, but have no soundness theorem. Trusted: torch's shape/index "
+            "semantics as modelled in data_sem (validated per run by one-hot provenance probes), torch's override selection, Coq kernel.",
 }
